@@ -146,7 +146,19 @@ func init() {
 		"(*sync.WaitGroup).Add":   nop("sync.WaitGroup = no-op"),
 		"(*sync.WaitGroup).Done":  nop("sync.WaitGroup = no-op"),
 		"(*sync.WaitGroup).Wait":  nop("sync.WaitGroup = no-op"),
-		"time.Sleep":              nop("time.Sleep = no-op"),
+		"time.Sleep": func(m *Machine, args []Value, g *Term, site ssa.Instruction) Value {
+			// no time passes symbolically; environment actions registered with
+			// verifrt.DuringSleep run at the designated sleep (something else may happen while
+			// the code under test sleeps)
+			m.stubsUsed["time.Sleep = no-op (plus DuringSleep environment actions)"]++
+			m.sleepN++
+			for _, h := range m.sleepHooks {
+				if h.k == m.sleepN {
+					m.callFuncV(h.f, nil, g, site)
+				}
+			}
+			return nil
+		},
 		"github.com/thoas/go-funk.Contains": funkContains,
 		"github.com/thoas/go-funk.Filter":   funkFilter,
 		"sort.Slice":                        sortSlice,
